@@ -16,8 +16,8 @@ CONSTANTS
   MaxSel = 6
   HRs = {0, 1}
   HSums = {2}
-  S0Min = 1
-  Kinds = {"stay", "join", "leave"}
+  S0Min = 2
+  Kinds = {"join", "leave"}
   Keys = {1, 3, 5}
   Late = FALSE
 INVARIANTS ChainWellFormed HMember HistoryIndependent ImplObjectMatches
